@@ -148,7 +148,45 @@ def k_width(ctx, cases):
 				break
 
 
-KINDS = {'triple': k_triple, 'big': k_big, 'width': k_width}
+def k_pairwise(ctx, cases):
+	"""the metric axioms through the all-pairs entry point (collections with several empty / equal signatures)"""
+	from gambit.metric import jaccarddist, jaccarddist_pairwise
+	from gambit.sigs.base import SignatureArray, SignatureList
+	for c in cases:
+		sigs = [np.array(s, dtype=c['dtype']) for s in c['sigs']]
+		n = len(sigs)
+		ctx.case(c, nontrivial=sum(1 for s in c['sigs'] if not s) >= 2 or len({tuple(s) for s in c['sigs']}) < n)
+		cont = {'array': SignatureArray(sigs, dtype=c['dtype']), 'list': SignatureList(sigs, dtype=c['dtype']), 'plain': list(sigs)}[c['container']]
+		sq = jaccarddist_pairwise(cont)
+		fl = jaccarddist_pairwise(cont, flat=True)
+		k = 0
+		bad = None
+		for i in range(n):
+			for j in range(n):
+				A, B = set(c['sigs'][i]), set(c['sigs'][j])
+				v = sq[i, j]
+				want = f32_bits(jaccarddist(sigs[i], sigs[j])) if i != j else 0
+				if f32_bits(v) != want:
+					bad = f'pairwise[{i},{j}] = {float(v)!r} but jaccarddist gives bits {want}'
+				elif (float(v) == 0) != (A == B):
+					bad = f'pairwise[{i},{j}] = {float(v)!r} but sets equal is {A == B}'
+				elif (float(v) == 1) != (not (A & B) and bool(A | B)):
+					bad = f'pairwise[{i},{j}] = {float(v)!r} but disjoint-and-not-both-empty is {not (A & B) and bool(A | B)}'
+				elif f32_bits(sq[j, i]) != f32_bits(v):
+					bad = f'pairwise matrix not symmetric at ({i},{j})'
+				if j > i:
+					if bad is None and f32_bits(fl[k]) != f32_bits(v):
+						bad = f'condensed form differs from the square form for pair ({i},{j})'
+					k += 1
+				if bad:
+					break
+			if bad:
+				break
+		if bad:
+			ctx.violation('pairwise', c, bad + f' (signatures {c["sigs"][i]} and {c["sigs"][j]}, container {c["container"]})')
+
+
+KINDS = {'triple': k_triple, 'big': k_big, 'width': k_width, 'pairwise': k_pairwise}
 SHRINK = False
 
 
@@ -189,5 +227,15 @@ def generate(ctx):
 			B = small
 			ctx.count('stream:width-collisions')
 			yield 'width', dict(a=A, b=B, da=da, db=db)
+	# all-pairs entry point: collections with several empty signatures and duplicates
+	for cont in ('array', 'list', 'plain'):
+		for dt in ('u2', 'u4', 'i8'):
+			for _ in range(ctx.pick(3, 15)):
+				pool = [[], [], [], sorted(rng.sample(range(50), 4)), sorted(rng.sample(range(50), 7)), [3], [3], sorted(rng.sample(range(50), 2))]
+				rng.shuffle(pool)
+				ctx.count('stream:pairwise-empties')
+				yield 'pairwise', dict(sigs=pool[:rng.randint(2, len(pool))], dtype=dt, container=cont)
+	yield 'pairwise', dict(sigs=[[], []], dtype='u2', container='array')
+	yield 'pairwise', dict(sigs=[[], [1], []], dtype='u2', container='plain')
 	yield 'big', dict(name='add_common_2p24')
 	yield 'big', dict(name='one_not_disjoint_2p25')
